@@ -132,6 +132,17 @@ def reset_case(out: Outcome, rng, cls) -> None:
         out.case({"detector": cls.__name__, "alpha_vs_p": "eq" if alpha == p else ("gt" if alpha > p else "lt"), "h": hash(ref.tobytes()) & 0xFFFFFF})
 
 
+def nan_case(out: Outcome) -> None:
+    """a NaN p-value is not <= alpha: the detector must stay fitted"""
+    for cls, ref, test in ((WelchTTest, [2.0] * 6, [2.0] * 5),):
+        det = cls(callbacks=[ResetStatisticalTest(alpha=0.05, name="r")])
+        det.fit(X=np.array(ref))
+        res = det.compare(X=np.array(test))[0]
+        if np.isnan(float(res.p_value)) and det.X_ref is None:
+            out.violation(f"{cls.__name__}: the reset callback reset the detector although the p-value is NaN (not <= alpha)", {"detector": cls.__name__, "ref": ref, "test": test})
+        out.case({"detector": cls.__name__, "nan_p_value": bool(np.isnan(float(res.p_value)))})
+
+
 def run(out: Outcome) -> None:
     rng = rng_for(out.seed, "C17")
     thorough = out.tier == "thorough"
@@ -144,6 +155,7 @@ def run(out: Outcome) -> None:
     for cls in (KSTest, AndersonDarlingTest, CVMTest, MannWhitneyUTest, WelchTTest):
         for _ in range(4 if thorough else 1):
             reset_case(out, rng, cls)
+    nan_case(out)
     got = run_driver(lines)
     for g, e in zip(got, expect):
         if e is None:
